@@ -49,7 +49,8 @@ def abstract_operand(obj, idmap):
     if isinstance(obj, ComparisonAssertion) or isinstance(obj, CompoundAssertion):
         return {"t": "assertion", "a": abstract_assertion(obj, idmap)}
     if isinstance(obj, CompoundPrior):
-        op = {"SumPrior": "+", "MultiplePrior": "*", "DivisionPrior": "/"}.get(type(obj).__name__, type(obj).__name__)
+        op = {"SumPrior": "+", "MultiplePrior": "*", "DivisionPrior": "/", "ModPrior": "%", "FloorDivPrior": "//"}.get(
+            type(obj).__name__, type(obj).__name__)
         return {"t": "arith", "op": op, "ln": obj._left_name, "rn": obj._right_name,
                 "l": abstract_operand(obj._left, idmap), "r": abstract_operand(obj._right, idmap)}
     return vbuild.abstract_model(af, obj, idmap)
